@@ -23,6 +23,7 @@ var stringPool = []string{
 	"cr\rlf", "%pct", "@at", "`bt`", "!tag", "&anchor", "*alias", "|", ">", "?", ",", "a,b,c", "k=v", "--dash",
 	"ünï©ödé", "日本語", "emoji😀", "/ip4/1.2.3.4/tcp/26656", "http://host:7980/path?q=1&r=2", "tcp://0.0.0.0:26657",
 	"12D3KooWQ@/ip4/127.0.0.1/tcp/7676,12D3KooWR@/dns/x/tcp/1", ":26660", "Null", "TRUE", "0", "00", "1e+21", "=", "<<",
+	"{\n  \"fee\": 1\n}", "  {\n    \"fee\": 1\n  }", " {\n  \"fee\": 1\n}", "a\n b", "a  \nb", "  \n fee=1", "\n a", "a\n\nb\n",
 }
 
 var expFloatRe = regexp.MustCompile(`^[-+]?(\.[0-9]+|[0-9]+(\.[0-9]*)?)[eE][-+]?[0-9]+$`)
@@ -32,7 +33,7 @@ var infNanRe = regexp.MustCompile(`^([-+]?\.(inf|Inf|INF)|\.(nan|NaN|NAN))$`)
 // and the reader used by Load (viper, yaml.v3) do not preserve. (The Lean model predicts what comes
 // back for them - Model/ConfigYaml.lean - so they go through the same `save` op as every other
 // value; this predicate only keeps them out of places that need an ordinary value.)
-func Exotic(s string) bool { return yamlCause(s) != "" }
+func Exotic(s string) bool { return yamlCause(s, 0) != "" || yamlCause(s, 1) != "" }
 
 func safeStrings() []string {
 	var out []string
@@ -48,7 +49,7 @@ func safeStrings() []string {
 // reader disagree - or look as if they might. Every class stays inside the domain the model was
 // validated on (at most 15 significant digits, decimal exponent at most 250, no tab, no blank next
 // to a line break, CR and LF never in one value).
-const nYamlClasses = 12
+const nYamlClasses = 13
 
 func yamlClass(r *hx.Rng, k int) string {
 	digits := func(n int, set string) string {
@@ -111,6 +112,20 @@ func yamlClass(r *hx.Rng, k int) string {
 		return strings.Join(parts, "\r") + strings.Repeat("\r", r.Intn(4))
 	case 9: // LF as the only line break
 		return []string{"\n", "a\nb", "a\n", "a\n\n", "\na", "\n\n", "?\nb", "a\n\nb"}[r.Intn(8)]
+	case 11: // several lines (LF): indented lines, blank first line, trailing spaces, a later line shallower than the first, pretty-printed JSON
+		if r.Chance(30) {
+			return []string{"{\n  \"fee\": 1\n}", "  {\n    \"fee\": 1\n  }", " {\n  \"fee\": 1\n}", "  \n fee=1", "\n a", "\n  a\n b", "a    \n", "a\n b", "a  \nb", "key: v\nk2: v2", "a\n\n\nb\n\n"}[r.Intn(11)]
+		}
+		n := 2 + r.Intn(3)
+		var ls []string
+		for i := 0; i < n; i++ {
+			w := []string{"a", "fee=1", "\"k\": 2", "x y", "}", "", ""}[r.Intn(7)]
+			ls = append(ls, strings.Repeat(" ", []int{0, 0, 1, 2, 4}[r.Intn(5)])+w+strings.Repeat(" ", []int{0, 0, 0, 1, 2, 4, 5}[r.Intn(7)]))
+		}
+		if r.Chance(25) {
+			ls[0] = ""
+		}
+		return strings.Join(ls, "\n") + strings.Repeat("\n", []int{0, 0, 1, 2}[r.Intn(4)])
 	case 10: // look like one of the above and are not: quoted by the writer, or strings for the reader too
 		return []string{"0x1F", "1.5e3", "017", "2001-01-01", "-", "1e3 ", "12e4#", "0X", "0XG", "0o8", "09a", "_09", "_1e3", "1e", "e3", "+-1e3", "2001-13-1", "2001-1-0", "?a", "a ? b", ".Nan", ".infx", "0b+2", "0O8"}[r.Intn(24)]
 	}
@@ -755,7 +770,8 @@ func Gen(r *hx.Rng, tier string, w io.Writer) {
 	}
 	if len(strOpts) > 0 {
 		fmt.Fprintln(w, "reset")
-		for _, v := range []string{"12e4", "1e3", ".inf", "cr\rlf", "\r", "end\r", "?", "? a", "09", "0X1F", "0o+17", "2001-1-1", "a\x01b", "\n"} {
+		for _, v := range []string{"12e4", "1e3", ".inf", "cr\rlf", "\r", "end\r", "?", "? a", "09", "0X1F", "0o+17", "2001-1-1", "a\x01b", "\n",
+			"\n a", "a    \n", "\n  a\n b", "  {\n    \"fee\": 1\n  }", " {\n  \"fee\": 1\n}", "{\n  \"fee\": 1\n}", "  \n fee=1", "a\n  b\nc"} {
 			fmt.Fprintf(w, "save set=%s\n", showPairs([]pair{{strOpts[r.Intn(len(strOpts))].Go, v}}))
 		}
 		draws := 3
@@ -766,6 +782,23 @@ func Gen(r *hx.Rng, tier string, w io.Writer) {
 			for i := 0; i < draws; i++ {
 				fmt.Fprintf(w, "save set=%s\n", showPairs([]pair{{strOpts[r.Intn(len(strOpts))].Go, yamlClass(r, k)}}))
 			}
+		}
+		// a value with line breaks in one option, non-default values in all the others: damage to the
+		// FILE shows as every other option reverting to its default
+		var others []pair
+		for _, f := range opts {
+			mv := mustValues(f, true)
+			others = append(others, pair{f.Go, mv[len(mv)-1]})
+		}
+		for _, v := range []string{"  {\n    \"fee\": 1\n  }", " {\n  \"fee\": 1\n}", "  \n fee=1", "\n  a\n b", "a\n  b\nc", yamlClass(r, 11), yamlClass(r, 11)} {
+			tgt := strOpts[r.Intn(len(strOpts))]
+			set := []pair{{tgt.Go, v}}
+			for _, p := range others {
+				if p.K != tgt.Go {
+					set = append(set, p)
+				}
+			}
+			fmt.Fprintf(w, "save set=%s\n", showPairs(set))
 		}
 		for i := 0; i < draws*2 && len(strOpts) > 1; i++ {
 			a, b := strOpts[r.Intn(len(strOpts))], strOpts[r.Intn(len(strOpts))]
@@ -779,7 +812,7 @@ func Gen(r *hx.Rng, tier string, w io.Writer) {
 	if len(strOpts) > 0 {
 		fmt.Fprintln(w, "reset")
 		unmodelled := []string{"\tb", "a\t", "\t", "?\ta", "-\tx", "a:\tb", "\t?", "a\u0085b", "a\u0085", "\u2028", "x\u2029y", "\ufeffa", "a\r\nb", "a\n\rb", "\r\n",
-			"a \nb", "a\n b", "a\tb\nc", "12345678901234567e3", "1e400", "1e-400", "9e9999", "2001-1-1 1:2:3", "2001-2-30", "2001-1-1T1:2:3Z", "0X1234567890abcdef0", "0B" + strings.Repeat("1", 70)}
+			"a\tb\nc", "\ta\nb", "a \rb", "12345678901234567e3", "1e400", "1e-400", "9e9999", "2001-1-1 1:2:3", "2001-2-30", "2001-1-1T1:2:3Z", "0X1234567890abcdef0", "0B" + strings.Repeat("1", 70)}
 		n := 10
 		if tier == "thorough" {
 			n = len(unmodelled) * 2
